@@ -92,17 +92,29 @@ extern void (*lex_progs[])(void); extern int n_lex_progs;
 
 /* every ordered pair (filter F, thrown T) of the built-in exception kinds, plus two kinds defined here: the inner handler
    runs exactly when F and T are the same kind, otherwise the enclosing catch-all gets T; the bound object is T */
-static var UserErrA, UserErrB;
+static var UserErrA, UserErrB, TryKindA, TryKindB;
+/* exception kinds that are objects of a user type whose comparison itself uses a try block (one that completes normally):
+   a try is then entered while an exception is being matched against the filters */
+struct TryKind { int64_t id; };
+static int TryKind_Cmp(var self, var obj) {
+  volatile int guarded = 0;
+  try { guarded = 1; } catch (e in TypeError, KeyError) { guarded = 2; }       /* a filtered handler: it must not even look at the exception in flight */
+  if (type_of(obj) != type_of(self)) return 1;
+  return ((struct TryKind*)self)->id == ((struct TryKind*)obj)->id ? 0 : (guarded == 1 ? 1 : -1);
+}
+var TryKind = Cello(TryKind, Instance(Cmp, TryKind_Cmp));
+#define NK 20
 static void run_pairs(void) {
-  var K[18] = { TypeError, ValueError, ClassError, IndexOutOfBoundsError, KeyError, OutOfMemoryError, IOError, FormatError, BusyError,
+  var K[NK] = { TypeError, ValueError, ClassError, IndexOutOfBoundsError, KeyError, OutOfMemoryError, IOError, FormatError, BusyError,
                 ResourceError, ProgramAbortedError, DivisionByZeroError, IllegalInstructionError, ProgramInterruptedError,
-                SegmentationError, ProgramTerminationError, UserErrA, UserErrB };
-  for (int fi = 0; fi < 18; fi++) for (int ti = 0; ti < 18; ti++) {
+                SegmentationError, ProgramTerminationError, UserErrA, UserErrB, TryKindA, TryKindB };
+  for (int fi = 0; fi < NK; fi++) for (int ti = 0; ti < NK; ti++) {
+    if ((fi >= 18) != (ti >= 18)) continue;      /* kinds of one sort per program: type objects, or objects of the user type */
     volatile int inner = 0, outer = 0, bound = -1, after = 0; volatile long d0 = depth_now();
     try {
-      try { throw(K[ti], "pair %i %i", $I(fi), $I(ti)); } catch (e in K[fi]) { inner++; for (int k = 0; k < 18; k++) if (e == K[k]) bound = k; }
+      try { throw(K[ti], "pair %i %i", $I(fi), $I(ti)); } catch (e in K[fi]) { inner++; for (int k = 0; k < NK; k++) if (e == K[k]) bound = k; }
       after = 1;
-    } catch (e) { outer++; for (int k = 0; k < 18; k++) if (e == K[k]) bound = k; }
+    } catch (e) { outer++; for (int k = 0; k < NK; k++) if (e == K[k]) bound = k; }
     ev_begin("pair"); ev_int("f", fi); ev_int("t", ti); ev_int("inner", inner); ev_int("outer", outer); ev_int("bound", bound);
     ev_int("after", after); ev_int("d0", d0); ev_int("d1", depth_now()); ev_end();
   }
@@ -111,6 +123,7 @@ static void run_pairs(void) {
 int main(int argc, char** argv) {
   if (argc < 2) { fprintf(stderr, "usage: h_exc script [out]\n"); return 9; }
   UserErrA = new_root(Type, $S("UserErrA"), $I(0)); UserErrB = new_root(Type, $S("UserErrB"), $I(0));
+  TryKindA = new_root(TryKind); ((struct TryKind*)TryKindA)->id = 1; TryKindB = new_root(TryKind); ((struct TryKind*)TryKindB)->id = 2;
   FILE* f = fopen(argv[1], "r"); if (!f) { perror(argv[1]); return 9; }
   if (argc > 2) { ev_fd = open(argv[2], O_WRONLY | O_CREAT | O_TRUNC | O_APPEND, 0644); if (ev_fd < 0) { perror(argv[2]); return 9; } }
   while (hc_next(f)) {
